@@ -178,7 +178,11 @@ def run(ctx):
         res.extra['model_evaluations'] = len(ops)
     end_to_end(ctx, res)
     import rogue
-    rogue.campaign(ctx, res, ctx.scale(10, 200), 50)
+    # the answers this property is about are given in every run, whatever the random stream does: the first CHILD_SA answers of each
+    # session widen a selector (alone, both, or as the first of two with an acceptable one after it) or flip the mode
+    forced = [[('widen-ts', 'first-of-two-i'), ('widen-ts', 'first-of-two-r')], [('widen-ts', 'i'), ('widen-ts', 'r')],
+              [('widen-ts', 'both'), ('flip-mode', None)], [('widen-ts', 'first-of-two-r'), ('widen-ts', 'first-of-two-i')]]
+    rogue.campaign(ctx, res, ctx.scale(10, 200), 50, forced=forced)
     return res
 
 
